@@ -59,13 +59,13 @@ def _unquote(s: str) -> str:
 	return body.replace('\\"', '"').replace('\\\\', '\\')
 
 
-def run(module: str, cfg: str, *, workers: int | str = 'auto', mode: str = 'bfs', simulate: str = '', depth: int = 0, seed: int | None = None, env: dict | None = None, timeout: int = 600, metadir: str | None = None, coverage: bool = False, deadlock: bool = True, extra: list[str] | None = None, dfs_queue: bool = False, heap: str = '4g') -> TLCResult:
+def run(module: str, cfg: str, *, workers: int | str = 'auto', mode: str = 'bfs', simulate: str = '', depth: int = 0, seed: int | None = None, env: dict | None = None, timeout: int = 600, metadir: str | None = None, coverage: bool = False, deadlock: bool = True, extra: list[str] | None = None, dfs_queue: bool = False, heap: str = '4g', cwd: str | None = None) -> TLCResult:
 	"""Run TLC on spec/<module>.tla with spec/<cfg>. Raises TLCFailure on crash/timeout/parse errors."""
 	own_meta = metadir is None
 	if own_meta:
 		import tempfile
 		metadir = tempfile.mkdtemp(prefix='verif-tlc-', dir=os.environ.get('VERIF_SCRATCH_BASE', '/var/tmp'))
-	java_opts = [f'-Xmx{heap}', '-XX:+UseParallelGC']
+	java_opts = [f'-Xmx{heap}', '-Xss512m', '-XX:+UseParallelGC', f'-DTLA-Library={SPEC_DIR}']
 	if dfs_queue:
 		java_opts.append('-Dtlc2.tool.queue.IStateQueue=StateDeque')
 	cmd = ['java', *java_opts, '-cp', f'{JAR}:{COMMUNITY}', 'tlc2.TLC', '-metadir', metadir, '-noGenerateSpecTE', '-config', cfg, '-workers', str(workers)]
@@ -86,7 +86,7 @@ def run(module: str, cfg: str, *, workers: int | str = 'auto', mode: str = 'bfs'
 	full_env.pop('JAVA_TOOL_OPTIONS', None)
 	begin = time.time()
 	try:
-		proc = subprocess.run(cmd, cwd=SPEC_DIR, env=full_env, stdout=subprocess.PIPE, stderr=subprocess.STDOUT, timeout=timeout, text=True)
+		proc = subprocess.run(cmd, cwd=cwd or SPEC_DIR, env=full_env, stdout=subprocess.PIPE, stderr=subprocess.STDOUT, timeout=timeout, text=True)
 	except subprocess.TimeoutExpired as e:
 		raise TLCFailure(f'TLC timed out after {timeout}s: {module} {cfg}') from e
 	finally:
